@@ -27,12 +27,16 @@ CLAIMS["C05"] = dict(
           "(R05b) the residue-code loop assigns a defined table entry on every path; (R05d) no status of a callee that can "
           "fail by input is dropped and main returns EXIT_FAILURE after ERROR; (R05e) NULL-tested cursors are not "
           "dereferenced untested in the same loop; (R05g) the API never reaches exit/abort; (R05i) a pointer published "
-          "through an out-parameter is not released afterwards. Each rule has must-fire / must-stay-silent controls."),
+          "through an out-parameter is not released afterwards; further rules added from seeded changes: capacity tests of "
+          "growable arrays before the next element access (R05j), borrowed field-owned pointers are not released (R05k), affine "
+          "heap bounds (R05l), table dimensions by constant evaluation (R05f), resize_aln_mem sizes (R05n), infinite penalties "
+          "rejected (R05o), gap-array zeroing from the old count to the new (R05s), single use of a va_list (R05t), no fclose "
+          "of a possibly-NULL stream (R05u). Each rule has must-fire / must-stay-silent controls or a floor of confirmed instances."),
     note=("Clauses only: termination, index safety inside the DP and bit-parallel kernels, integer overflow and malloc "
           "failure paths are NOT decided (goto-analyzer could not bound the kernels; DESIGN section 1). Assumes C-locale "
           "ctype semantics and 8-bit signed plain char."),
     technique="AST/CFG dataflow rules: byte-domain index evaluation, must-assign, error-status discipline, typestate on out-parameters, call-graph reachability",
-    design_ref="DESIGN.md section 3, C05 (R05a-R05i)")
+    design_ref="DESIGN.md section 3, C05 (R05a-R05u)")
 
 CLAIMS["C01"] = dict(
     text=("Decides four structural clauses that the anchors of the property name: (R01a) on every CFG path of kalign_run / "
@@ -40,11 +44,15 @@ CLAIMS["C01"] = dict(
           "finalise, rank sort); (R01b) msa_seq.rank is written only by the input check / copies / constructors and read "
           "only by the ascending rank comparator; (R01c) every store into a row buffer and every residue print in the "
           "export functions is a residue copied from msa_seq.seq, '-' or NUL; (R01d) exporters are gated on "
-          "ALN_STATUS_FINAL, assigned only after finalise_alignment's row loop, and the status values are pairwise distinct."),
+          "ALN_STATUS_FINAL, assigned only after finalise_alignment's row loop, and the status values are pairwise distinct; "
+          "every loop over gap slots covers len+1 slots and the writers emit exactly [0, alnlen) (R01e/f); make_seq's two new-gap "
+          "vectors never overlap and all carriers of gap counts are int wide (R01g); no length-capped name copy between records "
+          "is reachable from the API (R01h); finalise_alignment renders all numseq sequences and make_linear_sequence writes "
+          "the gaps[j] dashes in front of residue j (R01i)."),
     note=("Clauses only: the gap arithmetic (make_seq, update_gaps, add_gap_info_to_path_n, mirror_path_n), equal row "
           "lengths and absence of all-gap columns are sums over run-time arrays and are NOT decided."),
     technique="CFG must-pass-through, who-may-read/write table, store provenance, typestate gate",
-    design_ref="DESIGN.md section 3, C01 (R01a-R01d)")
+    design_ref="DESIGN.md section 3, C01 (R01a-R01i)")
 
 CLAIMS["C03"] = dict(
     text=("Decides non-interference of the caller's order with the computation: the canonical (len,name) sort dominates "
@@ -57,9 +65,11 @@ CLAIMS["C03"] = dict(
     design_ref="DESIGN.md section 3, C03 (R03a-R03e)")
 
 CLAIMS["C04"] = dict(
-    text=("Decides the structural clauses behind 'presentation does not matter': the three readers contain the same "
-          "character-classification chain on the same character (sibling cross-check, plus the absolute shape isalpha -> "
-          "append/len++/growth test, ispunct -> gaps[len]++); every loop that zeroes, totals or materialises gaps covers all "
+    text=("Decides the structural clauses behind 'presentation does not matter': the three readers handle every one of the 128 "
+          "byte values alike - the branch conditions are evaluated per byte (ctype calls, explicit ranges and constant lookup "
+          "tables alike): letters are appended with a growth test right after len++, punctuation is counted into gaps[len], "
+          "the histogram counts the same character; read_file_stdin keeps whole physical lines up to the first control "
+          "character; read_msf's block loop starts on the line after the '//' divider; every loop that zeroes, totals or materialises gaps covers all "
           "len+1 slots of all numseq sequences, ALN_STATUS_UNALIGNED is assigned only where all gaps are zero and nothing "
           "before the merge phase reads gaps; kalign_read_input never resets or overwrites a non-NULL accumulator and "
           "merge_msa recomputes kind, status and profile tables on every success path."),
@@ -67,7 +77,7 @@ CLAIMS["C04"] = dict(
           "and is NOT decided; the format-sniffing tokens are covered under C06, the kind decision under C13. Heuristics "
           "with numeric thresholds (is the file empty, first-100-lines sniffing) are not decided."),
     technique="sibling cross-check of reader chains, loop-span/coverage rule with affine bounds, who-may-write, must-call",
-    design_ref="DESIGN.md section 3, C04 (R04a-R04c)")
+    design_ref="DESIGN.md section 3, C04 (R04a-R04j)")
 
 CLAIMS["C06"] = dict(
     text=("Decides the lexical contract that any round trip needs: every token detect_alignment_format / read_msf / "
@@ -75,11 +85,12 @@ CLAIMS["C06"] = dict(
           "one format is emitted by another format's writer, the pointer skip after 'Name:' equals the token length; every "
           "store/copy into msa_seq.name is bounded by its buffer; no reader identifies a sequence by a prefix comparison; the "
           "writers emit exactly the columns [0, alnlen) of every row, for the loop shapes the rule can decide (counted "
-          "per-column loop; cursor-controlled block loop) - any other shape is reported as 'no verdict' (exit 2)."),
+          "per-column loop; cursor-controlled block loop) - any other shape is reported as 'no verdict' (exit 2); the test that "
+          "makes a block line the next row is equivalent to 'first character is not a blank' for every byte value."),
     note=("One clause family only: equality of the re-read alignment (block arithmetic at multiples of 60, name "
           "extraction over all names) is NOT decided - it needs the loop semantics over run-time widths."),
     technique="reader/writer token-set agreement from string literals, bounded-copy rule, prefix-comparison rule",
-    design_ref="DESIGN.md section 3, C06 (R06a-R06c)")
+    design_ref="DESIGN.md section 3, C06 (R06a-R06h)")
 
 CLAIMS["C15"] = dict(
     text=("Decides agreement inside write_msa_msf between header and body: the integer printed after 'MSF:' and every "
@@ -87,11 +98,13 @@ CLAIMS["C15"] = dict(
           "checksum is taken over that span of the row whose name is printed alongside, the overall check sums all numseq "
           "rows; banner and Type: choices, evaluated in the two (biotype, L) states kalign_run can leave behind, label "
           "protein as protein and nucleotide as nucleic; the checksum accumulators are reduced in every iteration (no 32-bit "
-          "overflow for long rows); row emission covers exactly [0, alnlen) for the recognised loop shapes (else: no verdict)."),
+          "overflow for long rows); row emission covers exactly [0, alnlen) for the recognised loop shapes (else: no verdict); "
+          "the checksum formula's weights and modulus, the line ordering keys, the retry of a header line that did not fit "
+          "(size provably larger than needed), a precision on every %s of a name, and the FINAL-status gate of the writers."),
     note=("Wrapping at 60, presence of every sequence in every block and the numerical GCG formula are NOT decided; a "
           "restructured emission loop yields exit 2 (no verdict), not a pass."),
     technique="reaching-definition agreement between header fields and emission bound; two-state evaluation of the type predicate",
-    design_ref="DESIGN.md section 3, C15 (R15a-R15c)")
+    design_ref="DESIGN.md section 3, C15 (R15a-R15j)")
 
 CLAIMS["C02"] = dict(
     text=("Decides the argument 'structured fork-join + non-interfering siblings + no thread-identity/-count dataflow => "
@@ -114,11 +127,12 @@ CLAIMS["C10"] = dict(
           "except gap-count elements, and only via make_seq -> update_gaps; update_gaps only adds sums of new-vector "
           "entries (counts never shrink), vectors hold 0 / +1 increments; make_seq applies one vector, unmodified, to "
           "exactly the members [0, nsip) of each group with length and counts of the same member; do_align builds "
-          "sip[c] from all members of both children and nsip[c] as the sum."),
+          "sip[c] from all members of both children and nsip[c] as the sum; the two new-gap vectors never overlap and are int "
+          "wide; the accumulated counts are rendered for every sequence with slot j in front of residue j."),
     note=("Does not decide that update_gaps distributes the vector over the right slots (index arithmetic over run-time "
           "arrays), nor the path encoding produced by the DP kernels."),
     technique="interprocedural effect summary (who-may-write), store-form rule, exact affine loop ranges, argument agreement",
-    design_ref="DESIGN.md section 3, C10 (R10a-R10d)")
+    design_ref="DESIGN.md section 3, C10 (R10a-R10f)")
 
 CLAIMS["C07"] = dict(
     text=("Decides the structural necessary conditions of the meet-in-the-middle recursion: the three meetup functions "
@@ -189,7 +203,9 @@ CLAIMS["C17"] = dict(
           "compare_pair receives rows (i,j) of the reference with rows (i,j) of the test over exactly the pairs 0<=i<j<numseq, "
           "each with its own alignment length; the stored score is 100 * a / b where, by reaching definitions, a sums exactly "
           "the counters incremented in compare_pair's comparison loops and b exactly those incremented while scanning the "
-          "first pair of rows - which the caller fills from the reference parameter - and no test-side counter."),
+          "first pair of rows - which the caller fills from the reference parameter - and no test-side counter; uniqueness "
+          "check and matching order use one comparison function; every row-walking loop (also inside private helpers) is "
+          "bounded by the length of the alignment its rows belong to; the score is computed without float operands."),
     note="Does not decide that the counters count the stated relations (index arithmetic in compare_pair) nor the 0..100 range.",
     technique="CFG dominance + argument pairing + reaching definitions + counter classification by scanned parameters",
-    design_ref="DESIGN.md section 3, C17 (R17a-R17b)")
+    design_ref="DESIGN.md section 3, C17 (R17a-R17f)")
